@@ -9,7 +9,8 @@
    the external functions: lower (str.lower), known (codecs.lookup succeeds), decode (str(bytes, codec,
    errors)), sniff (find_declared_encoding: the two regexes), chardet.  Nothing is assumed of them. *)
 From Coq Require Import List NArith Bool Arith.
-From BS Require Import Base.Sexp Base.Types Gen.T_C07 Model.Dammit Spec.DammitSpec Proofs.DammitProofs.
+From BS Require Import Base.Sexp Base.Types Gen.T_C07 Model.Dammit Model.Sniff Spec.DammitSpec Spec.SniffSpec
+                       Proofs.DammitProofs Proofs.SniffProofs.
 Import ListNotations.
 Open Scope N_scope.
 
@@ -315,3 +316,247 @@ Theorem C07_find_codec_known : forall lower known cs,
   find_codec lower known cs = Some (lower cs).
 Proof. exact find_codec_known. Qed.
 Print Assumptions C07_find_codec_known.
+
+(* ======================================================================================================
+   The declared encoding is no longer an input: EncodingDetector.find_declared_encoding and its two regular
+   expressions are modelled (Model/Sniff.v: hand-written scanners computing what pattern.search(markup,
+   endpos=E) captures, including WHICH match the backtracking engine reports) and related to a statement of
+   "the document declares an encoding" (Spec/SniffSpec.v).  md ranges over the two modes (bytes / str
+   patterns); mode_ok md is the handful of facts about \s and re.I the proofs need, discharged for both
+   modes from the interpreter's tables below.
+   ====================================================================================================== *)
+
+(* ---- table obligations: pattern texts, flags, windows, the interpreter's \s / . / re.I ---- *)
+Theorem C07_sniff_patterns_documented :
+  xml_pattern_text =
+    [94;92;115;42;60;92;63;46;42;101;110;99;111;100;105;110;103;61;91;39;34;93;40;46;42;63;41;91;39;34;93;46;42;92;63;62] /\
+  html_pattern_text =
+    [60;92;115;42;109;101;116;97;91;94;62;93;43;99;104;97;114;115;101;116;92;115;42;61;92;115;42;91;34;39;93;63;40;91;94;62;93;42;63;41;91;32;47;59;39;34;62;93] /\
+  sniff_compiled = [(0, 0, xml_pattern_text, 2); (0, 1, html_pattern_text, 2);
+                    (1, 0, xml_pattern_text, 34); (1, 1, html_pattern_text, 34)].
+Proof. exact sniff_patterns_documented. Qed.
+Print Assumptions C07_sniff_patterns_documented.
+
+Theorem C07_sniff_windows_documented :
+  sniff_xml_window = 1024 /\ sniff_html_window_min = 2048 /\ sniff_html_window_num = 1 /\ sniff_html_window_den = 20.
+Proof. exact sniff_windows_documented. Qed.
+Print Assumptions C07_sniff_windows_documented.
+
+Theorem C07_re_semantics_as_modelled :
+  re_ws_bytes = [9; 10; 11; 12; 13; 32] /\ re_dot_excludes_bytes = [10] /\ re_dot_excludes_str = [10] /\
+  incl re_ws_bytes re_ws_str /\
+  forallb (fun e => let p := fst e in
+             match assocN p re_ci_bytes with Some l => str_eqb l [p - 32; p] | None => false end)
+          re_ci_str = true /\
+  map fst re_ci_bytes = map fst re_ci_str /\
+  forallb (fun p => match assocN p re_ci_bytes with Some _ => true | None => N.eqb p 61 end)
+          (w_encoding_eq ++ w_meta ++ w_charset) = true.
+Proof. exact re_semantics_as_modelled. Qed.
+Print Assumptions C07_re_semantics_as_modelled.
+
+Theorem C07_sniff_modes_ok : forall m,
+  mode_ok (markup_mode m) = true /\
+  ci_ascii_ok (markup_mode m) w_encoding_eq = true /\ ci_ascii_ok (markup_mode m) w_meta = true /\
+  ci_ascii_ok (markup_mode m) w_charset = true.
+Proof. intros m. exact (conj (markup_mode_ok m) (keywords_any_case_ok m)). Qed.
+Print Assumptions C07_sniff_modes_ok.
+
+(* ---- the XML-declaration scanner, for every string ---- *)
+Theorem C07_xml_scan_sound : forall md s g,
+  xml_scan md s = Some g -> xml_shape md s g.
+Proof. exact xml_scan_sound. Qed.
+Print Assumptions C07_xml_scan_sound.
+
+Theorem C07_xml_scan_complete : forall md, mode_ok md = true -> forall s g,
+  xml_shape md s g -> xml_scan md s <> None.
+Proof. exact xml_scan_complete. Qed.
+Print Assumptions C07_xml_scan_complete.
+
+Theorem C07_xml_scan_finds : forall md, mode_ok md = true -> forall lead pre key q1 g q2 mid tail,
+  ws_all md lead -> ci_word md key w_encoding_eq -> is_quote q1 = true -> is_quote q2 = true ->
+  Forall (fun c => is_quote c = false) g ->
+  Forall (fun c => c <> 10) (pre ++ key ++ q1 :: g ++ q2 :: mid) ->
+  (forall a key' b, key ++ q1 :: g ++ q2 :: mid ++ 63 :: 62 :: take_line tail = a ++ key' ++ b ->
+                    ci_word md key' w_encoding_eq -> a = []) ->
+  xml_scan md (lead ++ 60 :: 63 :: pre ++ key ++ q1 :: g ++ q2 :: mid ++ 63 :: 62 :: tail) = Some g.
+Proof. exact xml_scan_finds. Qed.
+Print Assumptions C07_xml_scan_finds.
+
+(* ---- the <meta> scanner, for every string ---- *)
+Theorem C07_meta_at_sound : forall md t g,
+  meta_at md t = Some g -> meta_here md t g.
+Proof. exact meta_at_sound. Qed.
+Print Assumptions C07_meta_at_sound.
+
+Theorem C07_meta_at_complete : forall md, mode_ok md = true -> forall t g,
+  meta_here md t g -> meta_at md t <> None.
+Proof. exact meta_at_complete. Qed.
+Print Assumptions C07_meta_at_complete.
+
+Theorem C07_html_scan_sound : forall md s g,
+  html_scan md s = Some g -> meta_shape md s g.
+Proof. exact html_scan_sound. Qed.
+Print Assumptions C07_html_scan_sound.
+
+Theorem C07_html_scan_complete : forall md, mode_ok md = true -> forall s g,
+  meta_shape md s g -> html_scan md s <> None.
+Proof. exact html_scan_complete. Qed.
+Print Assumptions C07_html_scan_complete.
+
+(* the leftmost tag that declares anything is the one reported *)
+Theorem C07_html_scan_leftmost : forall md s g,
+  html_scan md s = Some g ->
+  exists before t, s = before ++ t /\ meta_at md t = Some g /\
+    forall a b, before = a ++ b -> b <> [] -> meta_at md (b ++ t) = None.
+Proof. exact html_scan_some. Qed.
+Print Assumptions C07_html_scan_leftmost.
+
+Theorem C07_html_scan_finds : forall md, mode_ok md = true ->
+  forall before w0 meta gap key w1 w2 oq name tm after,
+  let tag := 60 :: w0 ++ meta ++ gap ++ key ++ w1 ++ 61 :: w2 ++ oq ++ name ++ tm :: after in
+  (forall a b, before = a ++ b -> b <> [] -> forall g', ~ meta_here md (b ++ tag) g') ->
+  ws_all md w0 -> ci_word md meta w_meta -> gap <> [] -> Forall (fun c => c <> 62) gap ->
+  ci_word md key w_charset -> ws_all md w1 -> ws_all md w2 -> value_ok md oq name ->
+  Forall (fun c => is_term c = false) name -> is_term tm = true ->
+  (forall u1 u2 key' r, key ++ w1 ++ 61 :: w2 ++ oq ++ name ++ tm :: after = u1 ++ u2 -> u1 <> [] ->
+                        Forall (fun c => c <> 62) u1 -> u2 = key' ++ r -> ~ ci_word md key' w_charset) ->
+  html_scan md (before ++ tag) = Some name.
+Proof. exact html_scan_finds. Qed.
+Print Assumptions C07_html_scan_finds.
+
+(* ---- find_declared_encoding: both windows, both flags, bytes and str ---- *)
+Theorem C07_sniff_window : forall lower m h e,
+  find_declared_encoding lower m h e =
+  match xml_scan (markup_mode m) (searched_xml e (markup_chars m)) with
+  | Some g => declared_name lower m g
+  | None =>
+      if h then match html_scan (markup_mode m) (searched_html e (markup_chars m)) with
+                | Some g => declared_name lower m g
+                | None => None
+                end
+      else None
+  end.
+Proof. exact find_declared_unfold. Qed.
+Print Assumptions C07_sniff_window.
+
+Theorem C07_sniff_total : forall lower m h e,
+  let md := markup_mode m in
+  let sx := searched_xml e (markup_chars m) in
+  let sh := searched_html e (markup_chars m) in
+  (exists g, xml_shape md sx g /\ find_declared_encoding lower m h e = declared_name lower m g) \/
+  ((forall g, ~ xml_shape md sx g) /\ h = true /\
+   exists g, meta_shape md sh g /\ find_declared_encoding lower m h e = declared_name lower m g) \/
+  ((forall g, ~ xml_shape md sx g) /\ (h = false \/ forall g, ~ meta_shape md sh g) /\
+   find_declared_encoding lower m h e = None).
+Proof. exact sniff_total. Qed.
+Print Assumptions C07_sniff_total.
+
+Theorem C07_sniff_prefers_xml_declaration : forall lower m h e lead pre key q1 g q2 mid tail,
+  let md := markup_mode m in
+  searched_xml e (markup_chars m) = lead ++ 60 :: 63 :: pre ++ key ++ q1 :: g ++ q2 :: mid ++ 63 :: 62 :: tail ->
+  ws_all md lead -> ci_word md key w_encoding_eq -> is_quote q1 = true -> is_quote q2 = true ->
+  Forall (fun c => is_quote c = false) g ->
+  Forall (fun c => c <> 10) (pre ++ key ++ q1 :: g ++ q2 :: mid) ->
+  (forall a key' b, key ++ q1 :: g ++ q2 :: mid ++ 63 :: 62 :: take_line tail = a ++ key' ++ b ->
+                    ci_word md key' w_encoding_eq -> a = []) ->
+  find_declared_encoding lower m h e = declared_name lower m g.
+Proof. exact sniff_prefers_xml_declaration. Qed.
+Print Assumptions C07_sniff_prefers_xml_declaration.
+
+Theorem C07_sniff_finds_declaration_in_window : forall lower m e before w0 meta gap key w1 w2 oq name tm after,
+  let md := markup_mode m in
+  let tag := 60 :: w0 ++ meta ++ gap ++ key ++ w1 ++ 61 :: w2 ++ oq ++ name ++ tm :: after in
+  (forall g, ~ xml_shape md (searched_xml e (markup_chars m)) g) ->
+  searched_html e (markup_chars m) = before ++ tag ->
+  (forall a b, before = a ++ b -> b <> [] -> forall g', ~ meta_here md (b ++ tag) g') ->
+  ws_all md w0 -> ci_word md meta w_meta -> gap <> [] -> Forall (fun c => c <> 62) gap ->
+  ci_word md key w_charset -> ws_all md w1 -> ws_all md w2 -> value_ok md oq name ->
+  Forall (fun c => is_term c = false) name -> is_term tm = true ->
+  (forall u1 u2 key' r, key ++ w1 ++ 61 :: w2 ++ oq ++ name ++ tm :: after = u1 ++ u2 -> u1 <> [] ->
+                        Forall (fun c => c <> 62) u1 -> u2 = key' ++ r -> ~ ci_word md key' w_charset) ->
+  find_declared_encoding lower m true e = declared_name lower m name.
+Proof. exact sniff_finds_meta_in_window. Qed.
+Print Assumptions C07_sniff_finds_declaration_in_window.
+
+Theorem C07_sniff_none_without_declaration : forall lower m h e,
+  let md := markup_mode m in
+  (forall g, ~ xml_shape md (searched_xml e (markup_chars m)) g) ->
+  (h = false \/ forall g, ~ meta_shape md (searched_html e (markup_chars m)) g) ->
+  find_declared_encoding lower m h e = None.
+Proof. exact sniff_none_without_declaration. Qed.
+Print Assumptions C07_sniff_none_without_declaration.
+
+Theorem C07_sniff_ignores_beyond_window : forall lower (mk : str -> markup) s a b h,
+  (mk = MStr \/ mk = MBytes) ->
+  length a = length b ->
+  (Nat.max 1024 (Nat.max 2048 ((length s + length a) / 20)) <= length s)%nat ->
+  find_declared_encoding lower (mk (s ++ a)) h false = find_declared_encoding lower (mk (s ++ b)) h false.
+Proof. exact sniff_ignores_beyond_window. Qed.
+Print Assumptions C07_sniff_ignores_beyond_window.
+
+Theorem C07_sniff_case_insensitive : forall m key,
+  (map lower_ascii_char key = w_encoding_eq -> ci_word (markup_mode m) key w_encoding_eq) /\
+  (map lower_ascii_char key = w_meta -> ci_word (markup_mode m) key w_meta) /\
+  (map lower_ascii_char key = w_charset -> ci_word (markup_mode m) key w_charset).
+Proof. exact sniff_case_insensitive. Qed.
+Print Assumptions C07_sniff_case_insensitive.
+
+(* ---- composed with UnicodeDammit: sniff := the modelled find_declared_encoding ---- *)
+Theorem C07_declared_is_sniffed : forall lower known decode chardet m a,
+  det_declared (sniff_model lower) m a =
+    find_declared_encoding lower (fst (strip_byte_order_mark m)) (a_is_html a) false /\
+  r_declared_html (dammit lower known decode (sniff_model lower) chardet m a) =
+    if a_is_html a then find_declared_encoding lower (fst (strip_byte_order_mark m)) true false else None.
+Proof. exact declared_is_sniffed. Qed.
+Print Assumptions C07_declared_is_sniffed.
+
+Theorem C07_outcome_spec_sniffed : forall lower known decode chardet b a,
+  b <> [] ->
+  outcome (dammit lower known decode (sniff_model lower) chardet (MBytes b) a) =
+  spec_outcome (find_codec lower known) decode (fst (strip_bom b))
+    (spec_candidates lower (a_exclude a)
+       (documented_order (a_known a ++ a_override a) (snd (strip_bom b)) (a_user a)
+          (find_declared_encoding lower (MBytes (fst (strip_bom b))) (a_is_html a) false)
+          (chardet (MBytes (fst (strip_bom b)))))).
+Proof. exact outcome_spec_sniffed. Qed.
+Print Assumptions C07_outcome_spec_sniffed.
+
+Theorem C07_meta_declaration_used :
+  forall lower known decode chardet b a before w0 meta gap key w1 w2 oq name tm after u k,
+  let md := bytes_mode in
+  let tag := 60 :: w0 ++ meta ++ gap ++ key ++ w1 ++ 61 :: w2 ++ oq ++ name ++ tm :: after in
+  let e := lower (ascii_replace name) in
+  b <> [] -> snd (strip_bom b) = None ->
+  a_known a = [] -> a_override a = [] -> a_user a = [] -> a_is_html a = true ->
+  chardet (MBytes b) = None ->
+  (forall g, ~ xml_shape md (searched_xml false b) g) ->
+  searched_html false b = before ++ tag ->
+  (forall x y, before = x ++ y -> y <> [] -> forall g', ~ meta_here md (y ++ tag) g') ->
+  ws_all md w0 -> ci_word md meta w_meta -> gap <> [] -> Forall (fun c => c <> 62) gap ->
+  ci_word md key w_charset -> ws_all md w1 -> ws_all md w2 -> value_ok md oq name ->
+  Forall (fun c => is_term c = false) name -> is_term tm = true -> name <> [] ->
+  (forall u1 u2 key' r, key ++ w1 ++ 61 :: w2 ++ oq ++ name ++ tm :: after = u1 ++ u2 -> u1 <> [] ->
+                        Forall (fun c => c <> 62) u1 -> u2 = key' ++ r -> ~ ci_word md key' w_charset) ->
+  excluded lower (a_exclude a) e = false ->
+  find_codec lower known e = Some k -> decode b k Strict = Some u ->
+  outcome (dammit lower known decode (sniff_model lower) chardet (MBytes b) a) = (Some u, Some k, false) /\
+  r_declared_html (dammit lower known decode (sniff_model lower) chardet (MBytes b) a) = Some e.
+Proof. exact meta_declaration_used. Qed.
+Print Assumptions C07_meta_declaration_used.
+
+(* the hypotheses are satisfiable and the functions compute: <META  CharSet = 'Big5' >, an XML declaration
+   in capitals beating a meta tag, and a declaration pushed out of the 1024-character window *)
+Example C07_sniff_examples :
+  let lo := map lower_ascii_char in
+  find_declared_encoding lo (MBytes [60;77;69;84;65;32;32;67;104;97;114;83;101;116;32;61;32;39;66;105;103;53;39;32;62]) true false
+    = Some [98;105;103;53] /\
+  find_declared_encoding lo (MBytes ([60;63;120;109;108;32;69;78;67;79;68;73;78;71;61;34;65;34;63;62] ++
+                                     [60;109;101;116;97;32;99;104;97;114;115;101;116;61;98;62])) true false
+    = Some [97] /\
+  find_declared_encoding lo (MBytes (repeat 32 1005 ++ [60;63;120;109;108;32;101;110;99;111;100;105;110;103;61;34;65;34;63;62])) false false
+    = None /\
+  find_declared_encoding lo (MBytes (repeat 32 1004 ++ [60;63;120;109;108;32;101;110;99;111;100;105;110;103;61;34;65;34;63;62])) false false
+    = Some [97] /\
+  find_declared_encoding lo (MStr [60;109;101;116;97;32;99;104;97;114;383;101;116;61;120;62]) true false = Some [120] /\
+  find_declared_encoding lo (MBytes [60;109;101;116;97;32;99;104;97;114;115;101;116;61;120;62]) false false = None.
+Proof. vm_compute. repeat split; reflexivity. Qed.
